@@ -415,7 +415,8 @@ func (fr *Frame) havocForCall(c *Contract, fn *ssa.Function, key string, names m
 	}
 	var ws *writeSet
 	if fn != nil && len(fn.Blocks) > 0 {
-		ws = fr.eng.writeSetOf(fn)
+		bw := fr.eng.writeSetOf(fn)
+		ws = &writeSet{heaps: bw.heaps, allocs: bw.allocs || bw.all}
 	} else {
 		ws = &writeSet{heaps: map[string]string{}}
 		if a, ok := c.Attrs["allocates"]; ok {
